@@ -42,9 +42,9 @@ Back(u) == [scheme |-> SchemeOf(Comps(u)), host |-> u.host, port |-> u.port, pat
 
 (* address classes for the list helpers: [ip, http] *)
 IPClasses == {"pub4", "pub6", "priv4", "loop4", "loop6", "unspec4", "unspec6", "linklocal", "dns", "localhost", "nil"}
-HTTPSuffix == {"none", "http", "https", "tls-http"}
+HTTPSuffix == {"none", "bare80", "http", "https", "tls-http"}     \* bare80: plain TCP on the port the http form uses (a component-wise prefix of it)
 Addrs == {[ip |-> i, sfx |-> s] : i \in IPClasses \ {"nil"}, s \in HTTPSuffix} \cup {[ip |-> "nil", sfx |-> "none"]}
-IsHTTP(a) == a.sfx # "none"
+IsHTTP(a) == a.sfx \notin {"none", "bare80"}
 IsPublic(a) == a.ip \in {"pub4", "pub6", "dns"}
 Sel(s, P(_)) == SelectSeq(s, P)
 FindHTTP(l) == Sel(l, LAMBDA a : a.ip # "nil" /\ IsHTTP(a))
